@@ -89,11 +89,14 @@ def zone_class(q):
 
 
 def key_name_bytes(q, rng):
+    """Concrete key name: q['lit'][i] fixes a component's text (KEY, self, cert-request, ...), the others get
+    random bytes of the modelled length."""
     cs = []
-    n = len(q['keyname'])
-    for i, c in enumerate(q['keyname']):
-        if i == n - 2 and c == {'t': 8, 'l': 3}:
-            cs.append(b'\x08\x03KEY')
+    for c, w in zip(q['keyname'], q['lit']):
+        if w:
+            if c['t'] != 8 or c['l'] != len(w):
+                raise MachineryError('literal %r does not fit component %r' % (w, c))
+            cs.append(b'\x08' + st.write_var(len(w)) + w.encode())
         else:
             cs.append(pk.comp_bytes(c, rng))
     return cs
@@ -313,12 +316,12 @@ def check_issued(ctx, q, exp, b, pool, stage, label=None, rep=None):
         ctx.violation('C16/%s/%s' % (fn, clause), what, rep)
     if exp is not None:
         nb, na = list(val(b.wire, find(lay, 254)[0])), list(val(b.wire, find(lay, 255)[0]))
-        if exp['exact'] and nb != exp['nb']:
+        if nb != exp['nb']:
             ctx.violation('C16/%s/validity/not-before/%s' % (fn, zone_class(q)),
                           'NotBefore is %r, requested %r' % (bytes(nb), bytes(exp['nb'])), rep)
-        if exp['exact'] and na != exp['na']:
+        if na not in exp['na']:
             ctx.violation('C16/%s/validity/not-after/%s' % (fn, zone_class(q)),
-                          'NotAfter is %r, requested %r' % (bytes(na), bytes(exp['na'])), rep)
+                          'NotAfter is %r, requested %s' % (bytes(na), [bytes(x) for x in exp['na']]), rep)
         signed_ivs, sv = exp['signed'], exp['sv'][0]
     else:
         sv_e = lay[-1]
@@ -354,7 +357,14 @@ def rand_req(rng, pool):
     fn = rng.choice(['derive', 'derive', 'derive', 'new_cert', 'new_cert', 'self_sign', 'sign_req'])
     subj = rng.choice(SUBJ)
     ident = pk.rand_name(rng, 5)[:5] or [{'t': 8, 'l': 2}]
+    lit = [''] * len(ident)
+    if rng.random() < 0.3:      # identities may contain reserved-looking components at any depth
+        for _ in range(rng.randint(1, 2)):
+            w = rng.choice(['KEY', 'KEY', 'KEY', 'self', 'cert-request'])
+            i = rng.randrange(len(ident))
+            ident[i], lit[i] = {'t': 8, 'l': len(w)}, w
     keyname = ident + [{'t': 8, 'l': 3}, {'t': 8, 'l': 8}]
+    lit = lit + ['KEY', '']
     sg = dict(pk.NO_SG)
     k = rng.choice(['ecdsa', 'ecdsa', 'rsa', 'ed25519', 'hmac', 'digest', 'syn', 'syn'])
     if fn in ('self_sign', 'sign_req'):
@@ -388,7 +398,7 @@ def rand_req(rng, pool):
     forms = ['comp', 'typed'] + (['escaped'] if issuer['l'] > 0 else []) + (['plain'] * 2 if issuer['t'] == 8 and issuer['l'] > 0 else []) \
         + (['short'] * 2 if issuer['t'] in SHORTHAND and issuer['l'] in (1, 2, 4, 8) else [])
     idform = rng.choice(forms) if fn == 'derive' else 'comp'
-    return {'fn': fn, 'subj': subj, 'keyname': keyname, 'publen': len(pool.pub_der(subj)), 'issuer': issuer, 'idform': idform,
+    return {'fn': fn, 'subj': subj, 'keyname': keyname, 'lit': lit, 'publen': len(pool.pub_der(subj)), 'issuer': issuer, 'idform': idform,
             'sg': sg, 'clock': clock, 'start': start, 'dur': dur, 'tz': tz, 'tz2': tz2}
 
 
@@ -498,7 +508,7 @@ def run_history(ctx, kind, init, steps, shapes, pool, stage):
             ev.append({'a': 'SignData'})
         else:
             fn = stp[1]
-            q = {'fn': fn, 'subj': 'ec256', 'keyname': [{'t': 8, 'l': 3}, {'t': 8, 'l': 3}, {'t': 8, 'l': 8}],
+            q = {'fn': fn, 'subj': 'ec256', 'keyname': [{'t': 8, 'l': 3}, {'t': 8, 'l': 3}, {'t': 8, 'l': 8}], 'lit': ['', 'KEY', ''],
                  'publen': len(pool.pub_der('ec256')), 'issuer': {'t': 8, 'l': 3}, 'idform': 'plain', 'tz2': NAIVE, 'sg': live.sg(shapes[cur]),
                  'clock': {'d': 20000 + len(ev), 's': 3600, 'ms': 5}, 'start': {'d': 19000, 's': 0}, 'dur': 86400, 'tz': NAIVE}
             b = issue(q, ctx.rng, pool, target=False, live=(live.obj, names[cur]))
@@ -598,7 +608,7 @@ def hist_stage_b(ctx, pool):
 
 def hist_stage_c(ctx, pool):
     hists, certs = [], []
-    for k in range(ctx.pick(36, 900)):
+    for k in range(ctx.pick(24, 900)):
         nloc = ctx.rng.randint(2, 6)
         shapes = loc_shapes(ctx.rng, nloc, fixed=False)
         cur = init = ctx.rng.randint(1, nloc)
@@ -657,6 +667,7 @@ def run(ctx):
                 'number is not 8 bytes wide')
     ctx.assumptions = ['PyCryptodome primitives', 'strict TLV reader is the projection from bytes to the element tree',
                        'an aware datetime denotes an instant; a naive one is UTC (the convention of self_sign and the CLI)',
+                       'self_sign / sign_req request their documented periods (epoch..now+20 years on the same calendar day, now..now+10 days)',
                        'self_sign on 29 February towards a non-leap year: 28 February or 1 March are both accepted']
     scale = ctx.pick(1, 2)
     pool = pk.Pool(ctx.rng)
@@ -713,13 +724,13 @@ def run(ctx):
             if nontrivial(q):
                 ctx.nt(['B', q])
             ctx.sample({'kind': 'B-request', 'q': q, 'expected_layout': exp['lay'][:5],
-                        'not_before': bytes(exp['nb']).decode(), 'not_after': bytes(exp['na']).decode()}, limit=2)
+                        'not_before': bytes(exp['nb']).decode(), 'not_after': [bytes(x).decode() for x in exp['na']]}, limit=2)
         # the enumerated requests' observations also go through the TLC judge (the validity of self-issued
         # certificates is a predicate over the text found in the wire, evaluated by CertTime!ParseInst)
         report_rejected(ctx, brecs, pk.judge(ctx, 'NdnPacketsCertTrace', 'NdnPacketsCertTrace.cfg', brecs, 'c16-btraces'), 'B')
         hist_stage_b(ctx, pool)
     if 'C' in ctx.stages:
-        n = ctx.pick(1200, 12000)
+        n = ctx.pick(900, 12000)
         recs = [record(ctx, rand_req(ctx.rng, pool), pool) for _ in range(n)]
         for r_ in recs:
             if nontrivial(r_['q']):
@@ -734,8 +745,7 @@ def run(ctx):
 
 
 def report_rejected(ctx, recs, rejected, stage):
-    names = {'2': 'exception', '3': 'layout', '4': 'validity/not-before', '5': 'validity/not-after', '6': 'signed-range',
-             '7': 'validity/period-excludes-issuing-instant-or-malformed'}
+    names = {'2': 'exception', '3': 'layout', '4': 'validity/not-before', '5': 'validity/not-after', '6': 'signed-range'}
     for i, code in rejected:
         rec = recs[i]
         code = str(code).strip()
@@ -751,6 +761,8 @@ def report_rejected(ctx, recs, rejected, stage):
 
 
 def nontrivial(q):
+    if any(w for w in q['lit'][:-2]):
+        return True
     if q['sg']['a'] < q['sg']['r'] or (q['fn'] in ('derive', 'new_cert') and (q['tz'] not in (NAIVE, 0) or q['tz2'] != q['tz'])):
         return True
     if q['fn'] == 'derive' and q['idform'] in ('typed', 'escaped', 'short'):
